@@ -81,6 +81,13 @@ func (d *digester) value(v reflect.Value) {
 		}
 		d.value(e)
 	case reflect.Struct:
+		if t := v.Type(); t.PkgPath() == "verif/vrt/vsync" && t.Name() == "Pool" || t.PkgPath() == "sync" && t.Name() == "Pool" {
+			// the contents of a pool are opaque: by contract nobody may rely on what a pooled object
+			// holds (stale pointers into a finished operation's private data are normal), and Get/Put
+			// are synchronisation operations. Misuse shows in the interleaved outputs and the race pass.
+			d.w("{pool}")
+			return
+		}
 		v = clean(v)
 		d.w("{")
 		for i := 0; i < v.NumField(); i++ {
